@@ -226,8 +226,9 @@ func (v *value) Import(val interface{}) error {
 
 	if r, isRow := val.(Row); isRow {
 		// a nested object never changes the format of the column: it is kept as it is by Auto and
-		// Hidden columns, and converted (hence rejected) like any other value by the other formats
-		if v.f == Auto || v.f == Hidden {
+		// Hidden columns without a raw type, and converted (hence rejected) like any other value by
+		// the other formats and by columns declared with a raw type
+		if (v.f == Auto || v.f == Hidden) && v.typ == nil {
 			v.raw = r
 
 			return nil
